@@ -9,12 +9,11 @@ namespace Spydr.Eblif.Any
 
 open Spydr.Eblif
 
-/-- every pin of every `.latch` instance sits on a wire (an unconnected latch field is written as
-    the word `unconn`, which does not widen an existing `generic-latch` port) -/
-def LatchConnected (n : BNet) : Prop :=
-  ∀ k ∈ n.insts.zipIdx, k.1.typ = "EBLIF.latch" → ∀ q ∈ k.1.pins, (n.wireOf (Pin.inst k.2 q.1 q.2)).isSome = true
+/-- `generic-latch` is only used by `.latch` children (and is not the top model) -/
+def LatchSep (n : BNet) (t : String) : Prop :=
+  t ≠ "generic-latch" ∧ ∀ k ∈ n.insts.zipIdx, k.1.typ ≠ "EBLIF.latch" → k.1.model ≠ "generic-latch"
 
-instance (n : BNet) : Decidable (LatchConnected n) := by unfold LatchConnected; infer_instance
+instance (n : BNet) (t : String) : Decidable (LatchSep n t) := by unfold LatchSep; infer_instance
 
 /-- the ports of the definitions that get a black-box block have at least one pin -/
 def BBWide (n : BNet) (t : String) : Prop := ∀ d ∈ bbDefs n t, ∀ p ∈ d.ports, 1 ≤ p.width
@@ -30,7 +29,7 @@ theorem bnet_findDef_of_mem {n : BNet} (hnd : (n.defs.map (·.name)).Nodup) {d :
   rw [this]
 
 theorem roundtrip_leaf_ports (o : Opts) (n : BNet) (t : String) (hw : WellNamed n) (hf : FragFull n t)
-    (hn : NetOKA n t) (hnm : NamesOK o n) (hbp : BBPlain n t) (hpm : n.PinMirror) (hdg : LatchConnected n)
+    (hn : NetOKA n t) (hnm : NamesOK o n) (hbp : BBPlain n t) (hpm : n.PinMirror) (hdg : LatchSep n t)
     (hbw : BBWide n t) (n' : BNet) (h : readB (composeText o n) = Except.ok n') :
     ∀ k ∈ kidsFull n t, ∀ pn b,
       (pn, b) ∈ allPins (n'.findDef k.1.model) ↔ (pn, b) ∈ allPins (n.findDef k.1.model) := by
@@ -94,8 +93,9 @@ theorem roundtrip_leaf_ports (o : Opts) (n : BNet) (t : String) (hw : WellNamed 
       rw [this, ← List.map_map, List.zipIdx_map_fst]
     rw [h2] at h1
     simpa using h1.nodup_iff.mpr (hnm hwc)
-  obtain ⟨sk, hbk, lbk, ubk⟩ := body_ports o n t hw hc hk hkids (kidsFull n t) []
+  obtain ⟨sk, hbk, lbk, ubk⟩ := body_ports o n t hw hc hk hkids hdg.2 (kidsFull n t) []
     (fun k hk' => hperm.mem_iff.mp hk') hnames sh hlen0 (fun _ => by simp [hnames0]) dh hstd0
+    (Or.inl (habs _ (fun e => hdg.1 e.symm)))
   obtain ⟨sc, hbc, _, dc, _⟩ := conn_stmts t (connPairs n (n.findDef t)) (connKeys n t (n.findDef t))
     (connPairs_keys n t (n.findDef t) (fun p hpm => ⟨(hP p hpm).2.1, (hP p hpm).2.2.1⟩) hcab) sk
   have hm : elabModel {} { name := t, hdr := hdrOfFull (n.findDef t),
@@ -201,7 +201,7 @@ theorem roundtrip_leaf_ports (o : Opts) (n : BNet) (t : String) (hw : WellNamed 
   -- lower bound
   have lb : ∀ q ∈ k.1.pins, ∃ p, findIn (portsOf sf k.1.model) q.1 = some p ∧ q.2 < p.width := by
     intro q hq
-    obtain ⟨p, hp', hlt⟩ := lbk k hkk q hq (fun hl => hdg k hkz hl q hq)
+    obtain ⟨p, hp', hlt⟩ := lbk k hkk q hq
     obtain ⟨p1, hp1, l1⟩ := pm_elabStmts _ hbc _ _ p hp'
     obtain ⟨p2, hp2, l2⟩ := pm_elabModels _ hsf _ _ p1 hp1
     exact ⟨p2, hp2, by omega⟩
